@@ -24,7 +24,7 @@ func init() {
 		Prop:   "C19",
 		Run:    run,
 		Replay: replay,
-		Rule: "E1 over (tree x encoding) and over decoder inputs, E2 over the JSON reader's map order. A two-module schema with int8/int64/uint64/decimal64/boolean/empty/string/enumeration/identityref (own and foreign module)/union leaves, user- and system-ordered lists and leaf-lists, presence container, augmented nodes. Round trip: every data tree made of up to 2 (quick) / 3 (thorough) slots (leaf with each value of its alphabet incl. 64-bit extremes and strings needing escaping, leaf-lists, lists with 1-2 entries, containers) is encoded as RFC 7951, plain JSON and XML by the real writers and decoded by the real readers; the decoded tree must equal the original (sibling order free, list and leaf-list order kept when ordered-by user). For the JSON readers every map-iteration order (owned choice points, deviation bound 1) must give the same tree. " +
+		Rule: "E1 over (tree x encoding) and over decoder inputs, E2 over the JSON reader's map order. A two-module schema with int8/int64/uint64/decimal64/boolean/empty/string/enumeration/identityref (own and foreign module, an identity name that exists in both modules, an identityref leaf augmented in from the other module)/union leaves, user- and system-ordered lists and leaf-lists, presence container, augmented nodes. Round trip: every data tree made of up to 2 (quick) / 3 (thorough) slots (leaf with each value of its alphabet incl. 64-bit extremes and strings needing escaping, leaf-lists, lists with 1-2 entries, containers) is encoded as RFC 7951, plain JSON and XML by the real writers and decoded by the real readers; the decoded tree must equal the original (sibling order free, list and leaf-list order kept when ordered-by user). For the JSON readers every map-iteration order (owned choice points, deviation bound 1) must give the same tree. " +
 			"Totality: every byte prefix, every single-token deletion, duplication and replacement (token alphabet of the format) of every encoding, and every string of <= 4 tokens, is decoded under a step horizon: no panic; on success every leaf value in the returned tree must be accepted by its schema type and, where a reference parser (encoding/json with UseNumber, encoding/xml) finds the literal in the input, a literal the type rejects must not have been altered into an accepted value. Non-trivial = the tree has a list, leaf-list, 64-bit number, escaped string or foreign-module node, or the mutated input still decodes.",
 		Bound: map[string]string{"quick": "trees of <= 2 slots; mutations of the encodings of all 1-slot trees; token strings <= 3", "thorough": "trees of <= 3 slots; mutations of all 2-slot trees; token strings <= 4"},
 		Assumptions: []string{"map iteration inside encoding/json and the rfc7951 package is not owned; the reader's own range over the decoded map is"},
@@ -32,7 +32,7 @@ func init() {
 }
 
 const modA = `module a { namespace "urn:a"; prefix a;
- identity base; identity one { base base; }
+ identity base; identity one { base base; } identity dup { base base; }
  container c {
   leaf i8 { type int8; } leaf u64 { type uint64; } leaf i64 { type int64; }
   leaf d { type decimal64 { fraction-digits 2; } } leaf b { type boolean; } leaf e { type empty; }
@@ -45,8 +45,8 @@ const modA = `module a { namespace "urn:a"; prefix a;
   container in { presence p; leaf x { type string; } }
  } }`
 const modB = `module b { namespace "urn:b"; prefix b; import a { prefix a; }
- identity two { base a:base; }
- augment /a:c { leaf fromb { type string; } container cb { leaf y { type int8; } } } }`
+ identity two { base a:base; } identity dup { base a:base; }
+ augment /a:c { leaf fromb { type string; } leaf idrb { type identityref { base a:base; } } container cb { leaf y { type int8; } } } }`
 
 type D struct {
 	Name   string   `json:"name"`
@@ -79,7 +79,8 @@ func slots() [][]*D {
 		{lf("e", "")},
 		{lf("s", ""), lf("s", "a"), lf("s", "q\"\\<&é\n\t>"), lf("s", " lead and trail ")},
 		{lf("en", "x")},
-		{lf("idr", "one"), lf("idr", "b:two")},
+		{lf("idr", "one"), lf("idr", "b:two"), lf("idr", "dup"), lf("idr", "b:dup")},
+		{lf("idrb", "two"), lf("idrb", "a:one"), lf("idrb", "dup"), lf("idrb", "a:dup")},
 		{lf("un", "5"), lf("un", "auto")},
 		{lf("ll", "b", "a"), lf("ll", "a"), lf("ll", "z", "y", "x")},
 		{lf("ls", "3", "1", "2"), lf("ls", "255")},
@@ -673,6 +674,17 @@ func run(c *engine.Ctx) {
 		}
 		rec(nil)
 	}
+	for i := range identityInputs {
+		id := fmt.Sprintf("identity:%d", i)
+		if c.Owns(id) && c.Case(id) {
+			c.Add("states", 1)
+			vs := checkIdentityInput(ms, i)
+			c.Outcome(fmt.Sprintf("identity-input:viol=%v", len(vs) > 0))
+			for _, v := range vs {
+				c.Report(v)
+			}
+		}
+	}
 	// hand-written decoder inputs with values next to the type bounds
 	for i, in := range []string{
 		`{"c":{"i8":1.5}}`, `{"c":{"i8":127.9}}`, `{"c":{"i8":1e2}}`, `{"c":{"i8":128}}`, `{"c":{"u64":18446744073709551615}}`, `{"c":{"u64":18446744073709551616}}`,
@@ -693,7 +705,45 @@ func run(c *engine.Ctx) {
 	}
 }
 
+// identityInputs: XML identityref values with explicit prefix bindings; want "" =
+// the value names no identity derived from the base and must be rejected.
+var identityInputs = []struct{ leaf, attrs, text, want string }{
+	{"idr", ``, "one", "one"}, {"idr", ``, "nosuch", ""}, {"idr", ` xmlns:x="urn:a"`, "x:one", "one"}, {"idr", ` xmlns:x="urn:a"`, "x:dup", "dup"},
+	{"idr", ` xmlns:x="urn:b"`, "x:dup", "b:dup"}, {"idr", ` xmlns:x="urn:b"`, "x:two", "b:two"}, {"idr", ` xmlns:x="urn:b"`, "x:one", ""},
+	{"idr", ` xmlns:x="urn:no-such"`, "x:one", ""}, {"idr", ` xmlns:x="urn:no-such"`, "x:two", ""}, {"idr", ` xmlns:x="urn:a"`, "x:two", ""},
+	{"idrb", ` xmlns="urn:b"`, "two", "two"}, {"idrb", ` xmlns="urn:b"`, "dup", "dup"}, {"idrb", ` xmlns="urn:b" xmlns:x="urn:a"`, "x:dup", "a:dup"},
+	{"idrb", ` xmlns="urn:b" xmlns:x="urn:a"`, "x:two", ""}, {"idrb", ` xmlns="urn:b" xmlns:x="urn:no-such"`, "x:dup", ""},
+}
+
+func checkIdentityInput(ms schema.ModelSet, i int) []engine.Violation {
+	in := identityInputs[i]
+	text := fmt.Sprintf(`<data><c xmlns="urn:a"><%s%s>%s</%s></c></data>`, in.leaf, in.attrs, in.text, in.leaf)
+	r := decode(ms, encoding.XML, []byte(text), nil)
+	mk := func(key, detail string) []engine.Violation {
+		return []engine.Violation{{Key: key, Witness: "xml:" + text, Detail: detail, Harness: "identity", Replay: engine.JSON(map[string]int{"identity": i})}}
+	}
+	switch {
+	case r.panic != nil || r.horizon:
+		return mk("decoder-panic:xml:identityref", fmt.Sprint(r.panic))
+	case in.want == "" && r.err == nil && r.tree != nil:
+		return mk("rejected-value-silently-altered:xml:identityref", "the value names no identity of the base; decoded as "+canon(r.tree))
+	case in.want != "" && (r.err != nil || r.tree == nil):
+		return mk("valid-identityref-rejected:xml", fmt.Sprint(r.err))
+	case in.want != "" && canon(r.tree) != "/c\n/c/"+in.leaf+"="+in.want:
+		return mk("identityref-decoded-as-another-identity:xml", fmt.Sprintf("expected %s=%s, got %q", in.leaf, in.want, canon(r.tree)))
+	}
+	return nil
+}
+
 func replay(c *engine.Ctx, sub string, raw json.RawMessage) []engine.Violation {
+	if sub == "identity" {
+		var m map[string]int
+		ms, _ := getModel()
+		if json.Unmarshal(raw, &m) != nil || ms == nil || m["identity"] < 0 || m["identity"] >= len(identityInputs) {
+			return []engine.Violation{{Key: "harness-bad-replay-file"}}
+		}
+		return checkIdentityInput(ms, m["identity"])
+	}
 	var r rec
 	if json.Unmarshal(raw, &r) != nil {
 		return []engine.Violation{{Key: "harness-bad-replay-file"}}
